@@ -25,9 +25,9 @@ var handCorpus = []string{"a==1", "a == 1", "a == 1 and b == 2", "not a == 1", "
 	"a == \x00", "a == \"\x00\"", "a == `\x00`", "a == \"unterminated", "a == `unterminated", "a[\"k\"", "a[`k`]", "a[ \"k\" ]", "a.b[", "a == 1 and", "and", "or a == 1", "a == 1 or",
 	"any a as { x == 1 }", "any a as x, { x == 1 }", "any a as x, y, z { x == 1 }", "all a as _, _ { a == 1 }", "any a as x { }", "any a as x {", "any a as x { x == 1", "any as x { x == 1 }",
 	"a == 1 ) ", "( a == 1", "()", "( )", "not ( a == 1 )", "not\ta == 1", "a  is   not    empty", "a is  empty", "a isempty", "a is notempty", "\"/a\" is empty", "\"/\" == 1", "\"//\" == 1",
-	"a == \"/p~2\"", "\"/p~2\" == 1", "\"/p~\" == 1", "\"/a~01b\" == 1", "\"/~0~1~01~10\" is empty", "a == \"/x~01\"", "a matches b", "a not matches `[`", "1 == 1", "-1 in a", "1.5 not in a", "`raw` in a", "\"q\" not in a", "a == b.c[\"d\"]", "a == \"\\u00e9\"",
+	"a == \"\ufffd\"", "a == `\ufffd`", "a[\"\ufffd\"] == 1", "\ufffd == 1", "a == \"x\ufffdy\" and b == 1", "a == \"s t\"", "a == \"s  t\"", "a == \"s\tt\"", "a  ==  \"s t\"", "a[\"k k\"] == 1", "a[\"k  k\"] == 1", "a\f== 1", "a\v== 1", "a\u00a0== 1", "a\u0085== 1", "a == \"/p~2\"", "\"/p~2\" == 1", "\"/p~\" == 1", "\"/a~01b\" == 1", "\"/~0~1~01~10\" is empty", "a == \"/x~01\"", "a matches b", "a not matches `[`", "1 == 1", "-1 in a", "1.5 not in a", "`raw` in a", "\"q\" not in a", "a == b.c[\"d\"]", "a == \"\\u00e9\"",
 	"a==1 and b==2 and c==3", "a==1 or b==2 or c==3", "a==1 and b==2 or c==3 and d==4", "not a==1 and not b==2", "(a==1 or b==2) and c==3", "a==1 and (b==2 or c==3)",
-	strings.Repeat("(", 6) + "a==1" + strings.Repeat(")", 6), strings.Repeat("not ", 5) + "a==1", "a == " + strings.Repeat("9", 40), "a == 1.", "a == .5", "a == -", "a == 1e3", "a == +1"}
+	strings.Repeat("(", 6) + "a==1" + strings.Repeat(")", 6), strings.Repeat("(", 7) + "foo == 3" + strings.Repeat(")", 7), "a matches `(`", "b.c matches \"[z-a]\"", "m.k not matches `a{2,1}`", "l.0 matches `*x`", "any l as x { x matches `(` }", strings.Repeat("not ", 5) + "a==1", "a == " + strings.Repeat("9", 40), "a == 1.", "a == .5", "a == -", "a == 1e3", "a == +1"}
 
 var gSels = []string{"a", "b.c", `m["k"]`, `"/x/y"`, "l.0", "foo.bar.baz", "m[`r`]", `"/p~1q"`}
 var gVals = []string{"1", "-2.5", "foo", `"s t"`, "`raw`", `"/p"`, "x.y", `""`, "0", `"\x41"`}
@@ -224,6 +224,19 @@ func runC15(r *Run) {
 		if o == "PANIC" {
 			r.Violate("parse-panics", s, map[string]string{"input": s, "input_hex": hx(s)}, "grammar.Parse panicked")
 		}
+		// CreateEvaluator accepts exactly what Parse accepts and holds the same tree
+		func() {
+			defer func() { recover() }()
+			ev, err := bexpr.CreateEvaluator(s)
+			if (err == nil) != (verdictOf(o) == "accept") {
+				r.Violate("create-evaluator-verdict", s, map[string]string{"input": s, "input_hex": hx(s)}, fmt.Sprintf("Parse: %s, CreateEvaluator error: %v", verdictOf(o), err))
+			} else if err == nil {
+				var p1 []string
+				if t := sExpr(ev.VerifAST(), &p1); !strings.HasSuffix(o, " "+t) {
+					r.Violate("create-evaluator-tree", s, map[string]string{"input": s, "input_hex": hx(s)}, "CreateEvaluator holds "+truncate(t, 200)+" but Parse returned "+truncate(o, 200))
+				}
+			}
+		}()
 		r.Model(parseCmd("peg", 0, s), o, map[string]string{"input": s, "stream": stream})
 		if len(r.Samples) < 12 && (stream == "derive" || stream == "hand" || stream == "mutated") && rng != nil && r.Evaluations%97 == 0 {
 			r.Sample(map[string]string{"input": s, "impl": truncate(o, 160)})
@@ -259,7 +272,9 @@ func runC20(r *Run) {
 // C10: CreateEvaluator / CreateFilter / Parse are total and return evaluator xor error.
 func runC10(r *Run) {
 	r.Rule = "the parser corpus with the malformed stream tripled; per string: CreateEvaluator, CreateFilter and grammar.Parse under recover, result shapes, agreement of the three, then Evaluate on three data and ExpressionDump of the tree under recover; non-trivial = distinct string; the model's verdict is compared as well"
-	data := []interface{}{map[string]interface{}{"a": 1, "b": map[string]interface{}{"c": "x"}, "m": map[string]interface{}{"k": []interface{}{1, "s"}}, "l": []interface{}{1, 2}}, nil, S1{A: 1}}
+	data := []interface{}{map[string]interface{}{"a": 1, "b": map[string]interface{}{"c": "x"}, "m": map[string]interface{}{"k": []interface{}{1, "s"}}, "l": []interface{}{1, 2}}, nil, S1{A: 1},
+		// every name of the corpus resolves to a string somewhere: operators that need a string (matches) are reached
+		map[string]interface{}{"a": "abc", "b": map[string]interface{}{"c": "x"}, "m": map[string]interface{}{"k": "s", "r": "t"}, "l": []interface{}{"x", "y"}, "x": map[string]interface{}{"y": "z"}, "foo": map[string]interface{}{"bar": map[string]interface{}{"baz": "q"}}, "p": map[string]interface{}{"q": "v"}}}
 	check := func(stream, s string) {
 		if r.Distinct[s] > 0 {
 			return
@@ -392,11 +407,15 @@ func runC11(r *Run) {
 		inputs = append(inputs, strings.Repeat("(", d)+"a==1"+strings.Repeat(")", d))
 		inputs = append(inputs, strings.Repeat("( ", d)+"a == 1 and b == 2"+strings.Repeat(" )", d))
 	}
+	for _, k := range []int{300, 450} {
+		key := strings.Repeat("\U00020000", k)
+		inputs = append(inputs, `"/`+key+`" == 1`, `"/`+key+`" == 1 and b == 2 or c == 3`, `a == 1 or "/`+key+`" == 1`, "a == `"+strings.Repeat("é", 2*k)+"`", "a == 1 "+strings.Repeat("#", 10*k))
+	}
 	for _, s := range inputs {
 		unl := parseObs([]byte(s), 0)
 		var N uint64
 		fmt.Sscanf(unl[2:], "%d", &N)
-		budgets := []uint64{1, 2, N / 2, N - 1, N, N + 1, 2 * N}
+		budgets := []uint64{1, 2, N / 2, N - 1, N, N + 1, 2 * N, uint64(len(s)) - 1, uint64(len(s)), uint64(len(s)) + 1, (N + uint64(len(s))) / 2}
 		for k := 0; k < geo; k++ {
 			budgets = append(budgets, uint64(1)<<uint(2*k+1))
 		}
